@@ -135,7 +135,7 @@ prop("C09", "exploration",
      [dict(pkg="stagex", test="TestC09Stage", world="W1r", quick=1600, thorough=48000, per_proc=100, shrink_runs=200,
            required_classes=["fault-2", "name-reuse", "scan-nonempty"]),
       dict(pkg="racex", test="TestC09Concurrent", world="W0-stress", quick=64, thorough=2000, shards=16, shrink_runs=4,
-           required_classes=["queries-concurrent-with-receptions"])],
+           required_classes=["queries-concurrent-with-receptions", "first-contact-from-several-connections"])],
      STAGE_ASSUME + ["Received() answering 'no' for a range that is held is an under-claim and not judged here (it costs a retransmission, see C07/C08)"])
 
 prop("C20", "exploration",
@@ -283,7 +283,7 @@ prop("C16", "fault_enumeration",
      "disk), and after a graceful stop without faults everything the scans found is delivered or held validated; non-trivial = stop with a request in flight "
      "or a file awaiting its poll",
      [dict(pkg="stagex", test="TestC16Sim", world="W1", quick=1200, thorough=40000, per_proc=60, shrink_runs=150,
-           required_classes=["graceful", "immediate", "one-shot", "stop-with-request-in-flight", "validation-failures-after-stop"])],
+           required_classes=["graceful", "immediate", "one-shot", "stop-with-request-in-flight", "validation-failures-after-stop", "immediate-stop-with-every-request-refused"])],
      SIM_ASSUME + ["deadlocks that need a particular interleaving of runnable sender goroutines between two requests are found only by repetition"])
 
 WIRE_ASSUME = [
